@@ -71,7 +71,7 @@ func readsBackend(fn *ssa.Function, depth int, memo map[*ssa.Function]bool) bool
 	return res
 }
 
-// countedLoop: every exit of the loop tests an induction variable of the loop (phi of the header stepping by a constant).
+// countedLoop: the loop is bounded by an induction variable (phi of the header stepping by a constant) tested in its header.
 func countedLoop(l *ssax.Loop) bool {
 	induction := map[ssa.Value]bool{}
 	for _, ins := range l.Header.Instrs {
@@ -88,27 +88,23 @@ func countedLoop(l *ssax.Loop) bool {
 			}
 		}
 	}
-	exits := 0
-	for b := range l.Blocks {
-		for _, s := range b.Succs {
-			if l.Blocks[s] {
-				continue
-			}
-			exits++
-			ifi, ok := b.Instrs[len(b.Instrs)-1].(*ssa.If)
-			if !ok {
-				return false
-			}
-			bo, ok := ifi.Cond.(*ssa.BinOp)
-			if !ok {
-				return false
-			}
-			if !(induction[ssax.Unwrap(bo.X)] || induction[ssax.Unwrap(bo.Y)]) {
-				return false
-			}
+	// bounded: the loop header (evaluated on every iteration) ends in a test of an induction
+	// variable with one successor outside the loop; other exits only make the loop shorter
+	ifi, ok := l.Header.Instrs[len(l.Header.Instrs)-1].(*ssa.If)
+	if !ok {
+		return false
+	}
+	leaves := false
+	for _, s := range l.Header.Succs {
+		if !l.Blocks[s] {
+			leaves = true
 		}
 	}
-	return exits > 0
+	bo, ok := ifi.Cond.(*ssa.BinOp)
+	if !ok || !leaves {
+		return false
+	}
+	return induction[ssax.Unwrap(bo.X)] || induction[ssax.Unwrap(bo.Y)]
 }
 
 func errResult(call *ssa.Call) ssa.Value {
